@@ -56,6 +56,9 @@ def main(tier):
         run.ob(not bad, "no-err|eval_f64|%s" % ctor, "C05 overflow, division by zero and invalid operations stay values (no Err, no finiteness test)", "%s arm %s" % (where(m, "::ast::eval"), ctor), T.show(bad[0])[:120] if bad else "")
     from ..scanners import check_literals
     check_literals(run, m, "C05")
+    # the statement is about expressions: their value is that of the standard tree (C04's tables as a premise)
+    from .c04 import precedence_tables
+    precedence_tables(run, F, {"eval_f64": m}, PID)
     report_issues(run, models={"eval_f64": m}, tables={"T_eval", "T_prim", "T_lex"})
     run.floor("obligations", run.obligations, 30)
     return run.finish("chain surface->token->node->eval arm for every operation the property names, compared with the IEEE/libm reference term; constants by bit pattern", "./check C05 --tier %s" % tier)
